@@ -22,7 +22,7 @@ from harness.impl import c17_walk as W
 
 DATA = None
 FIXED = datetime.datetime(2020, 1, 2, 3, 4, 5)
-HIDDEN = ('tricache', 'imgcache')
+HIDDEN = ('tricache', 'imgcache', 'newprivate')
 
 
 def data_dir():
@@ -541,7 +541,7 @@ def run_case(case):
     a_snap = W.observable(W.locations(A))
     b_snap = W.observable(W.locations(B))
     twin_equal = True
-    d = W.diff(a_snap, b_snap)
+    d = W.observable_diff(a_snap, b_snap)
     if d:
         twin_equal = False
         fail('observable-changed', 'history',
